@@ -40,7 +40,7 @@ func init() {
 		MaxSteps:     60000,
 		YieldFiles:   []string{"netio/pipe.go"},
 		QuickRuns:    12000,
-		ThoroughSecs: 600,
+		ThoroughSecs: 400,
 		Rule: "one run = generated scripts (≤ 12 operations each) for 2–4 tasks per end of one netio.NewPipe (task 0 mostly writes, task 1 mostly reads, the others are " +
 			"writers, readers, mixed or controllers issuing deadlines/closes), write sizes 0–34, read buffers 0–64 (0…3× and more of the write size), deadlines past/future/zero, " +
 			"run-wide close weight, executed under one seeded schedule with statement-level pre-emption in netio/pipe.go; non-trivial = at least one byte was delivered AND at least " +
